@@ -1,7 +1,19 @@
 package server
 
 import (
+	"bytes"
+	"crypto/rand"
+	"encoding/base64"
+	"encoding/json"
 	"fmt"
+	"net/http"
+	"net/http/httptest"
+	"os"
+	"path/filepath"
+	"time"
+
+	"github.com/cbeuw/Cloak/internal/common"
+	"github.com/cbeuw/Cloak/internal/server/usermanager"
 	"runtime"
 	"sync"
 	"sync/atomic"
@@ -23,12 +35,28 @@ type c16Conc struct {
 	Chunk    int64
 	Rounds   int // upload rounds running concurrently (each: collect + commit), back to back until the traffic stops
 	Users    int
+	// Admin: the real (bolt) user database is used and, while traffic is counted and uploaded, an administrator keeps
+	// changing fields OTHER than the credits (sessions cap, rates, expiry) of the same users through the admin API
+	Admin bool `json:",omitempty"`
 }
 
 func c16ConcRun(sc c16Conc) (vk.Result, error) {
 	res := vk.Result{NonTrivial: true}
 	fm := newFakeManager()
-	panel := vPanel(fm)
+	var mgr usermanager.UserManager = fm
+	var router *usermanager.APIRouter
+	if sc.Admin {
+		dir := c18TmpDir()
+		defer os.RemoveAll(dir)
+		lm, err := usermanager.MakeLocalManager(filepath.Join(dir, "userinfo.db"), common.WorldState{Rand: rand.Reader, Now: time.Now})
+		if err != nil {
+			return res, fmt.Errorf("harness: %v", err)
+		}
+		defer lm.Close()
+		mgr = lm
+		router = usermanager.APIRouterOf(lm)
+	}
+	panel := vPanel(mgr)
 	const initial = int64(1) << 60
 	type usr struct {
 		rec      *ActiveUser
@@ -40,6 +68,10 @@ func c16ConcRun(sc c16Conc) (vk.Result, error) {
 		u := &usr{}
 		copy(u.uid[:], c15UID(i))
 		fm.users[u.uid] = &vFakeUser{UpRate: 1 << 40, DownRate: 1 << 40, UpCredit: initial, DownCredit: initial, Expiry: 1 << 40, Cap: 10}
+		if sc.Admin {
+			mgr.WriteUserInfo(usermanager.UserInfo{UID: u.uid[:], SessionsCap: usermanager.JustInt32(10), UpRate: usermanager.JustInt64(1 << 40), DownRate: usermanager.JustInt64(1 << 40),
+				UpCredit: usermanager.JustInt64(initial), DownCredit: usermanager.JustInt64(initial), ExpiryTime: usermanager.JustInt64(1 << 40)})
+		}
 		rec, err := panel.GetUser(u.uid[:])
 		if err != nil {
 			return res, fmt.Errorf("harness: %v", err)
@@ -75,7 +107,7 @@ func c16ConcRun(sc c16Conc) (vk.Result, error) {
 		}(g)
 	}
 	var rwg sync.WaitGroup
-	rounds := int64(0)
+	rounds, posts := int64(0), int64(0)
 	for r := 0; r < sc.Rounds; r++ {
 		rwg.Add(1)
 		go func() {
@@ -84,6 +116,25 @@ func c16ConcRun(sc c16Conc) (vk.Result, error) {
 				panel.updateUsageQueue()
 				panel.commitUpdate()
 				atomic.AddInt64(&rounds, 1)
+				runtime.Gosched()
+			}
+		}()
+	}
+	if sc.Admin {
+		rwg.Add(1)
+		go func() {
+			defer rwg.Done()
+			for k := 0; !stop.Load(); k++ {
+				u := users[k%len(users)]
+				field := []string{"SessionsCap", "UpRate", "DownRate", "ExpiryTime"}[k%4]
+				var v interface{} = int64(1<<40 + k)
+				if field == "SessionsCap" {
+					v = int32(10 + k%5)
+				}
+				body, _ := json.Marshal(map[string]interface{}{"UID": u.uid[:], field: v})
+				req, _ := http.NewRequest("POST", "/admin/users/"+base64.URLEncoding.EncodeToString(u.uid[:]), bytes.NewReader(body))
+				router.ServeHTTP(httptest.NewRecorder(), req)
+				atomic.AddInt64(&posts, 1)
 				runtime.Gosched()
 			}
 		}()
@@ -99,19 +150,29 @@ func c16ConcRun(sc c16Conc) (vk.Result, error) {
 		fm.mu.Lock()
 		up, down := fm.users[u.uid].UpCredit, fm.users[u.uid].DownCredit
 		fm.mu.Unlock()
+		if sc.Admin {
+			ui, gerr := mgr.GetUserInfo(u.uid[:])
+			if gerr != nil || ui.UpCredit == nil || ui.DownCredit == nil {
+				return res, vk.Violatef("user %d: record unreadable after the run: %v", i, gerr)
+			}
+			up, down = *ui.UpCredit, *ui.DownCredit
+		}
 		cu, cd := initial-up, initial-down
 		if cu != atomic.LoadInt64(&u.up) || cd != atomic.LoadInt64(&u.down) {
 			kind := "undercharged"
 			if cu > u.up || cd > u.down {
 				kind = "overcharged"
 			}
-			return res, vk.ViolateSig(kind, "user %d stayed active, traffic stopped, an upload completed: charged %d/%d bytes (up/down), counted by its connections %d/%d - %d/%d bytes differ (%d upload rounds ran while %d goroutines were counting)", i, cu, cd, u.up, u.down, u.up-cu, u.down-cd, atomic.LoadInt64(&rounds), sc.Counters)
+			return res, vk.ViolateSig(kind, "user %d stayed active, traffic stopped, an upload completed: charged %d/%d bytes (up/down), counted by its connections %d/%d - %d/%d bytes differ (%d upload rounds and %d admin updates of other fields ran while %d goroutines were counting)", i, cu, cd, u.up, u.down, u.up-cu, u.down-cd, atomic.LoadInt64(&rounds), atomic.LoadInt64(&posts), sc.Counters)
 		}
 	}
 	for _, u := range users {
 		u.rec.closeAllSessions("")
 	}
 	res.Labels = append(res.Labels, fmt.Sprintf("upload-rounds-during-traffic>=%d", bucket(atomic.LoadInt64(&rounds))))
+	if sc.Admin {
+		res.Labels = append(res.Labels, "admin-updates-during-traffic")
+	}
 	return res, nil
 }
 
@@ -129,7 +190,7 @@ func bucket(n int64) int64 {
 func TestVerif_C16_Concurrent(t *testing.T) {
 	vk.Run(t, "C16", "Concurrent", func(rt *rapid.T) c16Conc {
 		return c16Conc{Counters: rapid.IntRange(1, 8).Draw(rt, "counters"), Adds: rapid.SampledFrom([]int{20000, 100000, 300000}).Draw(rt, "adds"), Chunk: rapid.SampledFrom([]int64{1, 1500, 16401}).Draw(rt, "chunk"),
-			Rounds: rapid.IntRange(1, 3).Draw(rt, "rounds"), Users: rapid.IntRange(1, 3).Draw(rt, "users")}
+			Rounds: rapid.IntRange(1, 3).Draw(rt, "rounds"), Users: rapid.IntRange(1, 3).Draw(rt, "users"), Admin: rapid.IntRange(0, 2).Draw(rt, "admin") == 0}
 	}, func(sc c16Conc) (vk.Result, error) {
 		return vk.Protect(func() (vk.Result, error) { return c16ConcRun(sc) })
 	})
